@@ -309,6 +309,19 @@ def run_clause_shard(prop, clause_index, n, seed, shrink=True, max_buckets=4):
                 excluded.add(v.bucket)
                 remaining -= max(1, stats.evaluations - before)
                 continue
+            except BaseException as e:  # noqa
+                # Hypothesis reports "flaky" when a failing case passes on replay.  For checks whose cases include
+                # OS-scheduled bursts or timing (C07, C11) the violation that WAS observed is still a violation of the
+                # property on that execution; report it with the note that the schedule is not reproducible.
+                if type(e).__name__ in ("FlakyFailure", "Flaky", "FlakyReplay") and last.get("v") is not None:
+                    v = last["v"]
+                    out["failures"].append({"clause": clause.name, "vclause": v.clause, "bucket": v.bucket,
+                                            "message": "[observed once, not reproduced on replay] " + v.message,
+                                            "case": json.loads(canon(last.get("case")))})
+                    excluded.add(v.bucket)
+                    remaining -= max(1, stats.evaluations - before)
+                    continue
+                raise
             break
         out["stats"] = stats.to_dict()
     except HarnessError as e:
